@@ -210,3 +210,44 @@ CHECKS["C17"] = {
         {"pkg": "mboxprop", "run": "TestC17Codec", "checks": (20000, 400000), "shards": (1, 4), "timeout": (600, 3600)},
     ],
 }
+
+CHECKS["C02"] = {
+    "level": "fault_enumeration",
+    "rule": ("(1) exhaustive: every single-bit flip of one whole wire record (encrypted length header, its MAC, body, body MAC) for payload sizes {0,1,2,16,33} (thorough: 9 sizes up to 300), at stream positions first / third / first after a key rotation (every 7th bit there), XX and KK, both directions; "
+             "(2) rapid: sessions (XX/KK, all versions) whose writer emits 1-12 records (sizes 0..65535), captured at the wire and edited by scripts of up to 4 operations out of flip, truncate, drop, dup, swap, replay, reflect (the reader's own ciphertext of the other direction), inject bytes, swap header; "
+             "the edited stream is consumed through Machine.ReadMessage, NoiseGrpcConn.Read (in-memory ProxyConn) and NoiseConn.Read (hook constructor). Oracle: the records returned before the first error equal the first records written, "
+             "their number does not exceed the number of leading untouched records, and untouched leading records are all returned (no spurious error). Non-trivial: the script changed the byte stream; distinct by case."),
+    "exhaustive_scope": "all single-bit flips of the stated records",
+    "assumptions": ["reading stops at the first error (as the net.Conn users do)", "scrypt cost lowered by the verif hook"],
+    "units": [
+        {"pkg": "mboxprop", "run": "TestC02BitFlips", "kind": "plain", "shards": (4, 16), "timeout": (900, 3600)},
+        {"pkg": "mboxprop", "run": "TestC02EditScripts", "checks": (4000, 60000), "shards": (1, 8), "timeout": (900, 3600)},
+    ],
+}
+
+CHECKS["C08"] = {
+    "level": "exploration",
+    "rule": ("rapid-generated sessions (XX v0/v1/v2, KK) followed by up to 12 runs of records (4500 records per case in the quick tier, 20000 in the thorough tier; run lengths include 499/500/501/999/1000/1001 around the rotation every 500 records), "
+             "directions interleaved arbitrarily, sizes 0..65535, plaintext kinds: all-equal, the 2-byte body that equals its own length header, distinct random. Oracles per record: the (key, nonce) pair (hook) is new within its direction and the two directions never share a key; "
+             "wire length is 18+len+16; the encrypted header never repeats; equal plaintexts never give equal ciphertext; a 2-byte body never equals any header ciphertext; no 16-byte window of plaintext or auth payload is on the wire (records and handshake); "
+             "the peer decrypts every record to exactly what was written. Non-trivial: the stream crossed at least one rotation and contained equal plaintexts; distinct by case."),
+    "assumptions": ["scrypt cost lowered by the verif hook"],
+    "units": [
+        {"pkg": "mboxprop", "run": "TestC08CipherStream", "checks": (400, 3000), "shards": (1, 8), "timeout": (900, 3600)},
+    ],
+}
+
+CHECKS["C16"] = {
+    "level": "fault_enumeration",
+    "rule": ("(a) every valid version range (36) x {XX,KK} x payload {0,40,600} run twice with the same keys and ephemerals: over a message-preserving pipe and over a reader that returns at most k in {1,2,7,33,100} bytes per Read; outcomes (success, version, payload, identities, keys) must be identical. "
+             "(b)+(c) partial writes: all two- and three-way partitions of the wire bytes of a record for payload sizes 0..24 (exhaustive) and rapid partitions with up to 12 cut points for sizes up to 65535 at positions incl. across a key rotation; "
+             "the peer reads the re-assembled record through a fragmenting reader. Oracle: the bytes accepted over all Flush calls equal the wire record of a reference session written in one go, exactly once; the Flush counts sum to the plaintext length; "
+             "WriteMessage while bytes are pending returns ErrMessageNotFlushed; an extra Flush is a no-op; the peer decrypts the record and the following one. Non-trivial: every fragmented handshake, every partition with >= 1 cut."),
+    "exhaustive_scope": "36 ranges x 2 patterns x 5 fragment sizes x 3 payloads; all <=3-way partitions for payloads 0..24",
+    "assumptions": ["scrypt cost lowered by the verif hook"],
+    "units": [
+        {"pkg": "mboxprop", "run": "TestC16HandshakeFragmentation", "kind": "plain", "timeout": (900, 3600)},
+        {"pkg": "mboxprop", "run": "TestC16PartialEnum", "kind": "plain", "shards": (2, 8), "timeout": (900, 3600)},
+        {"pkg": "mboxprop", "run": "TestC16PartialRapid", "checks": (2000, 40000), "shards": (1, 8), "timeout": (900, 3600)},
+    ],
+}
